@@ -259,6 +259,8 @@ def r1_cbtf(ctx):
     def run(q_empty, mapping=False, miss=False):
         S = Run(ctx, fn, inline=inl, consts=consts, run=False, handler_path=(lambda t: miss))
         S.truth("isinstance(save, abc.MutableMapping)", mapping)
+        if mapping:
+            S.truth("save is None", False)          # a mapping is not None: `cache = save if isinstance(...) else None; if cache is not None`
         _sign_len(S, "{n}", "locate.flippv(bset, m.shape[0])", "zero" if q_empty else "pos")
         S.sign("a.ndim - 1", "pos")
         S.sign("a.ndim - 2", "zero")
@@ -1015,12 +1017,19 @@ def r6_coordchk(ctx):
         # the regime evaluated: there are boundary DOF besides the reference DOF (`o.size > 0` for o = complement of the reference DOF)
         v = ev.ev(test)
         u = unfn(v) if is_rat(v) else None
-        if u is not None and u[0] == "cmp:Gt" and eq(u[1][1], F.const(0)):
+        if u is not None and len(u[1]) == 2 and eq(u[1][1], F.const(0)) and u[0] in ("cmp:Gt", "cmp:NotEq", "cmp:Eq", "cmp:LtE"):
             w = unfn(u[1][0])
-            for nm in ("attr:size", "call:len"):
-                if w is not None and w[0] == nm and split_call(w[1][0]) is not None and split_call(w[1][0])[0] == "locate.flippv":
-                    return True
+            if w is not None and w[0] in ("attr:size", "call:len", "dim") and (w[0] != "dim" or eq(w[1][1], F.const(0))) \
+                    and split_call(w[1][0]) is not None and split_call(w[1][0])[0] == "locate.flippv":
+                return u[0] in ("cmp:Gt", "cmp:NotEq")
+        if u is not None and w_is_len_of_flippv(v):
+            return True          # `if o.size:` / `if len(o):`
         return None
+
+    def w_is_len_of_flippv(v):
+        w = unfn(v)
+        return w is not None and w[0] in ("attr:size", "call:len", "dim") and (w[0] != "dim" or eq(w[1][1], F.const(0))) \
+            and split_call(w[1][0]) is not None and split_call(w[1][0])[0] == "locate.flippv"
 
     kbb = "K[np.ix_(bset, bset)]"
     NZ = f"{kbb}.any(axis=0)"
@@ -1030,6 +1039,7 @@ def r6_coordchk(ctx):
         names = ("fout", "K", "bset", "refpoint", "grids", "ttl", "verbose", "rb_normalizer")
         S = Run(ctx, fn, args=[F.sym(n) for n in names], inline=inl, consts=consts, callv=_solve_model, cond=cond, objs=names, run=False)
         S.sign("len(bset) - 6", "pos")
+        S.index_vector("bset")          # positions of the boundary DOF (documented): K[np.ix_(bset, bset)] has len(bset) rows
         S.truth(f"(~{NZ}).any()", trim)
         S.truth("verbose", False)
         S.truth("rb_normalizer is None", True)
